@@ -83,16 +83,16 @@ func mk(spec string) []row {
 // tables: <=5 rows over {NULL,1,2} ints and strings with ties under both collations; the
 // insertion order is deliberately not sorted by anything.
 var tableSpecs = []string{
-	"-,1,a;1,2,A;2,1,b;1,1,B;2,-,-",    // NULLs in every column, ties on a, case ties on s
-	"1,2,b;1,1,a;1,-,A;1,2,B;1,1,-",    // a constant: everything is decided by later keys / ties
-	"2,2,B;-,-,a;-,2,á;2,1,ab;1,-,b",   // two NULL a's, accent tie (a = á under ai_ci), prefix string
-	"1,1,a;2,2,b;1,1,a;2,2,b;1,1,a",    // duplicate rows
-	"2,1,A;1,2,a",                      // two rows
-	"-,-,-",                            // a single all-NULL row
-	"",                                 // empty
-	"2,-,b;2,2,a;1,-,B;-,1,A;-,-,ab",   // thorough: another mix
-	"1,2,-;2,1,-;-,-,-;2,2,a;1,1,A",    // thorough: NULL strings dominate
-	"2,2,b;2,1,a;1,2,B",                // thorough: three rows
+	"-,1,a;1,2,A;2,1,b;1,1,B;2,-,-",  // NULLs in every column, ties on a, case ties on s
+	"1,2,b;1,1,a;1,-,A;1,2,B;1,1,-",  // a constant: everything is decided by later keys / ties
+	"2,2,B;-,2,á;-,-,a;2,1,ab;1,-,b", // two NULL a's whose b values are stored out of order, accent tie (a = á under ai_ci), prefix string
+	"1,1,a;2,2,b;1,1,a;2,2,b;1,1,a",  // duplicate rows
+	"2,1,A;1,2,a",                    // two rows
+	"-,-,-",                          // a single all-NULL row
+	"",                               // empty
+	"2,-,b;2,2,a;1,-,B;-,1,A;-,-,ab", // thorough: another mix
+	"1,2,-;2,1,-;-,-,-;2,2,a;1,1,A",  // thorough: NULL strings dominate
+	"2,2,b;2,1,a;1,2,B",              // thorough: three rows
 }
 
 // for PRIMARY KEY(a) the a column must be distinct and non-NULL: a is replaced by a permutation.
